@@ -341,7 +341,7 @@ def run(spec, ctx):
                 origin = GN.origin(rng, plain=True) if use_origin else None
                 if origin == (b"",):
                     origin = (b"example", b"")
-                val = GR.gen(rng, t, origin, relative_ok=use_origin)
+                val = GR.gen(rng, t, origin, relative_ok=use_origin, opaque_padding=True)
                 w = check_roundtrip(ctx, val, origin)
                 if w is not None:
                     corpus[t].append((val.rdclass, val.rdtype, w))
